@@ -456,6 +456,9 @@ def individual_plots(
             print_func(result)
             plt.show()
 
+        else:
+            print_func(result)
+
         plt.close()
 
         if i < num_data - 1:
